@@ -1,0 +1,188 @@
+//go:build verif
+
+// Verification hooks for the state-token / call-cache properties (C12..C15).
+// Exports only: every function calls the unexported production helper it
+// wraps; nothing here changes behaviour, and the file is compiled only with
+// `-tags verif`.
+
+package vgirpc
+
+import (
+	"reflect"
+	"time"
+)
+
+// VerifCursorData mirrors cursorTokenData.
+type VerifCursorData struct {
+	CreatedAt int64
+	CallID    string
+	State     interface{}
+	// Method mirrors cursorTokenData.Method when the tree has that field
+	// (copied by name through reflection so this file builds either way).
+	Method string
+}
+
+func verifCursorSetMethod(d *cursorTokenData, m string) {
+	if f := reflect.ValueOf(d).Elem().FieldByName("Method"); f.IsValid() && f.Kind() == reflect.String {
+		f.SetString(m)
+	}
+}
+
+func verifCursorGetMethod(d *cursorTokenData) string {
+	if f := reflect.ValueOf(d).Elem().FieldByName("Method"); f.IsValid() && f.Kind() == reflect.String {
+		return f.String()
+	}
+	return ""
+}
+
+// VerifCallData mirrors callTokenData.
+type VerifCallData struct {
+	CreatedAt int64
+	CallID    string
+	SchemaIPC []byte
+	StreamID  string
+}
+
+// VerifCursorAAD / VerifCallAAD expose the associated data builders.
+func VerifCursorAAD(auth *AuthContext) []byte { return stateTokenAad(auth) }
+func VerifCallAAD(auth *AuthContext) []byte   { return callTokenAad(auth) }
+
+// VerifCallCacheIdentity exposes the identity half of the call-cache key.
+func VerifCallCacheIdentity(auth *AuthContext) string { return callStateIdentity(auth) }
+
+// VerifStickyPrincipalKey exposes the sticky registry partition key.
+func VerifStickyPrincipalKey(auth *AuthContext) string { return principalKeyFromAuth(auth) }
+
+// VerifSealCursorToken seals a cursor token under key for auth with an
+// explicit CreatedAt, through the production sealToken.
+func VerifSealCursorToken(key []byte, auth *AuthContext, d VerifCursorData) ([]byte, error) {
+	h := &HttpServer{tokenKey: key}
+	data := cursorTokenData{CreatedAt: d.CreatedAt, CallID: d.CallID, State: d.State}
+	verifCursorSetMethod(&data, d.Method)
+	return h.sealToken(cursorTokenVersion, &data, stateTokenAad(auth))
+}
+
+// VerifReageCursorToken opens a cursor token and re-seals the identical
+// payload (every field, whatever the struct holds) with CreatedAt moved
+// olderBy seconds into the past — "virtual time advanced by olderBy" for
+// this token.
+func VerifReageCursorToken(key []byte, auth *AuthContext, token []byte, olderBy int64) ([]byte, error) {
+	h := &HttpServer{tokenKey: key}
+	var data cursorTokenData
+	if err := h.openToken(cursorTokenVersion, token, stateTokenAad(auth), &data); err != nil {
+		return nil, err
+	}
+	data.CreatedAt -= olderBy
+	return h.sealToken(cursorTokenVersion, &data, stateTokenAad(auth))
+}
+
+// VerifReageCallToken is VerifReageCursorToken for call tokens. It touches
+// no call cache.
+func VerifReageCallToken(key []byte, auth *AuthContext, token []byte, olderBy int64) ([]byte, error) {
+	h := &HttpServer{tokenKey: key}
+	var data callTokenData
+	if err := h.openToken(callTokenVersion, token, callTokenAad(auth), &data); err != nil {
+		return nil, err
+	}
+	data.CreatedAt -= olderBy
+	return h.sealToken(callTokenVersion, &data, callTokenAad(auth))
+}
+
+// VerifOpenCursorToken opens a cursor token through the production openToken
+// (authenticity only; no age check).
+func VerifOpenCursorToken(key []byte, auth *AuthContext, token []byte) (VerifCursorData, error) {
+	h := &HttpServer{tokenKey: key}
+	var data cursorTokenData
+	if err := h.openToken(cursorTokenVersion, token, stateTokenAad(auth), &data); err != nil {
+		return VerifCursorData{}, err
+	}
+	return VerifCursorData{CreatedAt: data.CreatedAt, CallID: data.CallID, State: data.State, Method: verifCursorGetMethod(&data)}, nil
+}
+
+// VerifSealCallToken seals a call token with an explicit CreatedAt. Unlike
+// packCallToken it does not touch any call cache.
+func VerifSealCallToken(key []byte, auth *AuthContext, d VerifCallData) ([]byte, error) {
+	h := &HttpServer{tokenKey: key}
+	data := callTokenData{CreatedAt: d.CreatedAt, CallID: d.CallID, SchemaIPC: d.SchemaIPC, StreamID: d.StreamID}
+	return h.sealToken(callTokenVersion, &data, callTokenAad(auth))
+}
+
+// VerifOpenCallToken opens a call token (authenticity only; no age check).
+func VerifOpenCallToken(key []byte, auth *AuthContext, token []byte) (VerifCallData, error) {
+	h := &HttpServer{tokenKey: key}
+	var data callTokenData
+	if err := h.openToken(callTokenVersion, token, callTokenAad(auth), &data); err != nil {
+		return VerifCallData{}, err
+	}
+	return VerifCallData{CreatedAt: data.CreatedAt, CallID: data.CallID, SchemaIPC: data.SchemaIPC, StreamID: data.StreamID}, nil
+}
+
+// VerifSealStickyToken seals a sticky-session token with explicit contents.
+func VerifSealStickyToken(key []byte, auth *AuthContext, serverID string, sessionID [12]byte, expiresAt, createdAt int64) (string, error) {
+	return sealSessionToken(key, serverID, sessionID, expiresAt, stateTokenAad(auth), createdAt)
+}
+
+// VerifOpenStickyToken opens a sticky-session token.
+func VerifOpenStickyToken(key []byte, auth *AuthContext, token string) (serverID string, sessionID [12]byte, expiresAt int64, err error) {
+	return openSessionToken(token, key, stateTokenAad(auth))
+}
+
+// VerifTokenVersions returns the on-wire version bytes (cursor, call, sticky).
+func VerifTokenVersions() (cursor, call, sticky byte) {
+	return cursorTokenVersion, callTokenVersion, sessionTokenVersion
+}
+
+// VerifShiftCallCache moves every call-cache entry's expiry d into the past
+// ("virtual time advances by d"): the cache only ever compares time.Now()
+// with the stored expiresAt.
+func VerifShiftCallCache(h *HttpServer, d time.Duration) {
+	c := h.callStates
+	if c == nil {
+		return
+	}
+	c.mu.Lock()
+	defer c.mu.Unlock()
+	for el := c.order.Front(); el != nil; el = el.Next() {
+		e := el.Value.(*callStateEntry)
+		e.expiresAt = e.expiresAt.Add(-d)
+	}
+}
+
+// VerifCallCacheLen returns the number of entries currently held (expired
+// entries that have not been looked up yet are counted).
+func VerifCallCacheLen(h *HttpServer) int {
+	c := h.callStates
+	if c == nil {
+		return 0
+	}
+	c.mu.Lock()
+	defer c.mu.Unlock()
+	return len(c.entries)
+}
+
+// VerifCallCache is a standalone production callStateCache for the
+// concurrent LRU arm of C15.
+type VerifCallCache struct{ c *callStateCache }
+
+func VerifNewCallCache(max int, ttl time.Duration) *VerifCallCache {
+	return &VerifCallCache{c: newCallStateCache(max, ttl)}
+}
+
+func (v *VerifCallCache) Put(callID string, auth *AuthContext, schemaIPC []byte, streamID string) {
+	v.c.put(callID, auth, &resolvedCall{SchemaIPC: schemaIPC, StreamID: streamID})
+}
+
+func (v *VerifCallCache) Get(callID string, auth *AuthContext) (schemaIPC []byte, streamID string, ok bool) {
+	got := v.c.get(callID, auth)
+	if got == nil {
+		return nil, "", false
+	}
+	return got.SchemaIPC, got.StreamID, true
+}
+
+// Len returns (map size, list length); the two must always agree.
+func (v *VerifCallCache) Len() (int, int) {
+	v.c.mu.Lock()
+	defer v.c.mu.Unlock()
+	return len(v.c.entries), v.c.order.Len()
+}
